@@ -100,6 +100,10 @@ def gen_structured(rng, n, tables):
         post = junkstr(junk, 0.3)
         c0 = first()
         comps = [comp() for _ in range(rng.choice([0, 0, 1, 1, 2, 2, 3, 4]))]
+        if rng.random() < 0.08:
+            # a long tail of rotation / unknown components after the deciding words: the recursion
+            # strips one component per level, for every name however many components it has
+            comps += [rng.choice(rot) if rng.random() < 0.7 else unknown() for _ in range(rng.choice([5, 9, 15, 16, 17, 18, 25, 40, 64, 120]))]
         if rng.random() < 0.06 and comps:
             j = rng.randrange(len(comps))
             if comps[j].lower() not in known and not comps[j].lstrip("+-").isdigit():
@@ -257,7 +261,7 @@ def run(ctx):
         hist[len(s[2])] = hist.get(len(s[2]), 0) + 1
     ctx.coverage.update(
         evaluations=len(names), distinct_nontrivial=min(distinct, boundary),
-        rule="names = structured (pre junk, first component, 0-4 components drawn from type/compression/unparsable/tar words in 4 case variants, numeric and unknown rotation suffixes, post junk) + arbitrary byte strings (dots, junk, UTF-8 and invalid bytes, up to 4 KiB) + corner list + corpus; both unparseable_are_text modes; non-trivial = leading/trailing junk or dot, >=2 dots, or a non-ASCII byte; distinct by (bytes, mode)",
+        rule="names = structured (pre junk, first component, 0-4 components drawn from type/compression/unparsable/tar words in 4 case variants, numeric and unknown rotation suffixes, in 8 % of the names a tail of 5-120 further rotation components, post junk) + arbitrary byte strings (dots, junk, UTF-8 and invalid bytes, up to 4 KiB) + corner list + corpus; both unparseable_are_text modes; non-trivial = leading/trailing junk or dot, >=2 dots, or a non-ASCII byte; distinct by (bytes, mode)",
         samples=[dict(name=names[i][0].decode("utf-8", "replace"), unparseable_are_text=names[i][1], impl_code=impl[i]) for i in (0, 1, len(structured), len(names) - 1)],
         structured_cases=len(structured), arbitrary_cases=len(arbitrary),
         components_histogram=hist, model_disagreements=len(model_dis), spec_failures=spec_fail,
